@@ -153,6 +153,8 @@ pub struct Ctx {
   pub evals: u64,
   /// fingerprints of distinct cases that fell in a hard class
   pub nontrivial: BTreeMap<String, HashSet<u64>>,
+  /// distinct cases counted by construction (exhaustive enumerations), per class
+  pub enumerated: BTreeMap<String, u64>,
   pub hist: BTreeMap<String, u64>,
   pub worst: BTreeMap<String, f64>,
   pub samples: Vec<String>,
@@ -169,7 +171,7 @@ pub struct Ctx {
 
 impl Ctx {
   pub fn new(prop: &str, thorough: bool, seed: u64, pass: &str, known_ids: &[String]) -> Ctx {
-    Ctx { prop: prop.into(), thorough, seed, pass: pass.into(), evals: 0, nontrivial: BTreeMap::new(), hist: BTreeMap::new(), worst: BTreeMap::new(),
+    Ctx { prop: prop.into(), thorough, seed, pass: pass.into(), evals: 0, nontrivial: BTreeMap::new(), enumerated: BTreeMap::new(), hist: BTreeMap::new(), worst: BTreeMap::new(),
       samples: Vec::new(), violations: Vec::new(), n_violations: 0, known_hits: BTreeMap::new(), inconclusive: Vec::new(), n_oracle_ambiguous: 0,
       known_ids: known_ids.to_vec(), notes: Vec::new() }
   }
@@ -188,7 +190,9 @@ impl Ctx {
     // cap memory: beyond 2M distinct members of a class we stop counting (conservative)
     if set.len() < 2_000_000 { set.insert(h); }
   }
-  pub fn n_nontrivial(&self) -> usize { self.nontrivial.values().map(|s| s.len()).sum() }
+  pub fn n_nontrivial(&self) -> usize { self.nontrivial.values().map(|s| s.len()).sum::<usize>() + self.enumerated.values().sum::<u64>() as usize }
+  /// `n` more distinct non-trivial cases of `class`, distinct by construction (an enumeration without repetition)
+  pub fn enumerated(&mut self, class: &str, n: u64) { *self.enumerated.entry(class.to_string()).or_insert(0) += n; }
   pub fn worst_max(&mut self, k: &str, v: f64) { let e = self.worst.entry(k.to_string()).or_insert(f64::NEG_INFINITY); if v > *e { *e = v; } }
   pub fn sample(&mut self, case: &Case, note: &str) { if self.samples.len() < 12 { self.samples.push(format!("{}{}{}", case.pretty(), if note.is_empty() { "" } else { " => " }, note)); } }
   pub fn sample_force(&mut self, s: String) { if self.samples.len() < 40 { self.samples.push(s); } }
@@ -213,6 +217,7 @@ impl Ctx {
   pub fn merge(&mut self, o: Ctx) {
     self.evals += o.evals;
     for (k, set) in o.nontrivial { let e = self.nontrivial.entry(k).or_insert_with(HashSet::new); for h in set { if e.len() < 2_000_000 { e.insert(h); } } }
+    for (k, v) in o.enumerated { *self.enumerated.entry(k).or_insert(0) += v; }
     for (k, v) in o.hist { *self.hist.entry(k).or_insert(0) += v; }
     for (k, v) in o.worst { self.worst_max(&k, v); }
     for s in o.samples { if self.samples.len() < 12 { self.samples.push(s); } }
@@ -228,7 +233,7 @@ impl Ctx {
     o.push_str("{\n");
     let _ = write!(o, " \"property_id\": {},\n \"pass\": {},\n \"thorough\": {},\n \"seed\": {},\n", jstr(&self.prop), jstr(&self.pass), self.thorough, self.seed);
     let _ = write!(o, " \"evaluations\": {},\n \"distinct_nontrivial\": {},\n \"rule\": {},\n", self.evals, self.n_nontrivial(), jstr(rule));
-    let _ = write!(o, " \"classes\": {{{}}},\n", self.nontrivial.iter().map(|(k, v)| format!("{}: {}", jstr(k), v.len())).collect::<Vec<_>>().join(", "));
+    let _ = write!(o, " \"classes\": {{{}}},\n", self.nontrivial.iter().map(|(k, v)| format!("{}: {}", jstr(k), v.len())).chain(self.enumerated.iter().map(|(k, v)| format!("{}: {}", jstr(&format!("{} (enumerated)", k)), v))).collect::<Vec<_>>().join(", "));
     let _ = write!(o, " \"samples\": [{}],\n", self.samples.iter().map(|s| jstr(s)).collect::<Vec<_>>().join(", "));
     let _ = write!(o, " \"histogram\": {{{}}},\n", self.hist.iter().map(|(k, v)| format!("{}: {}", jstr(k), v)).collect::<Vec<_>>().join(", "));
     let _ = write!(o, " \"worst\": {{{}}},\n", self.worst.iter().map(|(k, v)| format!("{}: {}", jstr(k), jnum(*v))).collect::<Vec<_>>().join(", "));
